@@ -5,3 +5,4 @@ pub mod rta;
 pub mod systems;
 pub mod agree;
 pub mod harden;
+pub mod ros2;
